@@ -93,6 +93,19 @@ where
     }
 }
 
+#[cfg(nuts_rs_verif)]
+impl<M, R, A> NutsChain<M, R, A>
+where
+    M: Math,
+    R: rand::Rng,
+    A: AdaptStrategy<M>,
+{
+    /// Verification hook: read access to the adaptation strategy.
+    pub fn verif_strategy(&self) -> &A {
+        &self.strategy
+    }
+}
+
 pub trait AdaptStrategy<M: Math>: SamplerStats<M> {
     type Hamiltonian: Hamiltonian<M>;
     type Collector: Collector<M, <Self::Hamiltonian as Hamiltonian<M>>::Point>;
